@@ -52,6 +52,10 @@ EXPECTED_PROBES = ('dataclass-retry-after-failure', 'op:register', 'op:unregiste
 V = _C._verif if hasattr(_C, '_verif') else None
 NAMESPACES_OBS = ('', 'a', 'b', 'unknown')
 BUILTINS = (list, dict, tuple, type(None), deque, OrderedDict, defaultdict)
+# classes that are KEYS of the Python-side built-in table without being node types themselves: the stand-in under which the
+# handlers for all struct sequences are filed.  (collections.namedtuple, the other stand-in, is a function and is refused as
+# "not a class".)  No instance has exactly this type; what a registration of it does shows in the observations of time.struct_time.
+MARKERS = (optree.typing.structseq,)
 KIND = optree.PyTreeKind
 
 
@@ -119,10 +123,12 @@ def universe_for_run():
     fresh_tm = U.MetaHook('FreshTM', (tuple,), {})
     fresh_pm = U.MetaHook('FreshPM', (object,), {'__init__': U.PM.__init__})
     fresh_nt = type('FreshNT', (collections.namedtuple('FreshNTBase', ['p', 'q']),), {'__slots__': ()})
-    return [U.CA, CAsub, U.NTM, fresh_nt, fresh_tm, fresh_pm, U.STRUCTSEQ_TYPES[0], U.CE, list, dict, type(None), deque]
+    return [U.CA, CAsub, U.NTM, fresh_nt, fresh_tm, fresh_pm, U.STRUCTSEQ_TYPES[0], U.CE, list, dict, type(None), deque, MARKERS[0]]
 
 
 def instance_of(cls):
+    if cls in MARKERS:
+        return None
     if cls in BUILTINS:
         if cls is type(None):
             return None
@@ -183,6 +189,8 @@ def observe(model, types, instances, all_funcs, viol, site, probes):
     U.HOOK = None
     vec = []
     for cls in types:
+        if cls in MARKERS:
+            continue
         inst = instances[cls]
         for ns in NAMESPACES_OBS:
             for nil in (False, True):
@@ -248,7 +256,7 @@ def observe(model, types, instances, all_funcs, viol, site, probes):
             if want_f is not None:
                 if h is None or h.flatten_func != want_f.flatten:
                     viol('mirror-mismatch', site, 'register_pytree_node.get(namespace=%r)[%s] = %s, but flattening in %r uses registration %r' % (ns, cls.__name__, short(h), ns, want_f.rid))
-            elif cls not in BUILTINS and h is not None:
+            elif cls not in BUILTINS and cls not in MARKERS and h is not None:
                 viol('mirror-mismatch', site, 'register_pytree_node.get(namespace=%r) lists %s = %s, model has no registration visible from %r' % (ns, cls.__name__, short(h), ns))
     # ---- engine snapshot
     if V is not None:
@@ -397,6 +405,11 @@ def run_job(job, io):
                         expect_exc = (ValueError,) if fault != 'hook-raise' or not isinstance(cls, U.MetaHook) else (ValueError, Injected)
                     elif will_warn and fault in ('warn-error', 'showwarning-raise'):
                         expect_exc = 'any'
+                    elif cls in MARKERS:
+                        # refusing it (it is a key of the built-in table) and accepting it as an ordinary class are both within
+                        # the statement; what must hold either way is checked by the observations that follow
+                        expect_exc = 'either'
+                        probes['register-builtin-table-key'] += 1
                 if opk == 'register':
                     optree.register_pytree_node(args_cls, f.flatten, f.unflatten, namespace=ns_arg, **kwargs)
                 else:
@@ -469,7 +482,7 @@ def run_job(job, io):
         if raised is None:
             outcome = 'ok'
             probes['outcome:ok'] += 1
-            if expect_exc is not None and expect_exc != 'any':
+            if expect_exc is not None and expect_exc not in ('any', 'either'):
                 # the model said this must fail: undo the model update made above
                 viol('should-have-failed', site, '%s(%s, namespace=%s) succeeded; expected %s' % (opk, getattr(cls, '__name__', cls), nsname, [t.__name__ for t in expect_exc]))
             elif expect_exc == 'any':
@@ -485,7 +498,9 @@ def run_job(job, io):
                     all_funcs.remove(f)
             if expect_exc is None:
                 viol('unexpected-failure', site, '%s(%s, namespace=%s) raised %s: %s' % (opk, getattr(cls, '__name__', cls), nsname, type(raised).__name__, raised))
-            elif expect_exc != 'any' and not isinstance(raised, expect_exc):
+            elif expect_exc == 'either' and isinstance(raised, (ValueError, TypeError)):
+                pass
+            elif expect_exc != 'any' and not isinstance(raised, expect_exc if expect_exc != 'either' else (ValueError, TypeError)):
                 viol('wrong-exception', site, '%s(%s, namespace=%s) raised %s (%s); documented: %s' % (
                     opk, getattr(cls, '__name__', cls), nsname, type(raised).__name__, raised, [t.__name__ for t in expect_exc]))
             elif isinstance(raised, SystemError):
@@ -521,7 +536,7 @@ def run_job(job, io):
                 oplog.append('dataclass-retry(Plain,a)->ok')
                 observe(model, types, instances, all_funcs, viol, 'dataclass:retry', probes)
             retry_cls = None
-        keys.add('%s|%s|%s|%s|%s' % (hash(model.digest(types)) & 0xffff, opk, getattr(cls, '__name__', cls) if cls in types[:12] else 'DC', fault or '-', outcome.split(':')[0]))
+        keys.add('%s|%s|%s|%s|%s' % (hash(model.digest(types)) & 0xffff, opk, getattr(cls, '__name__', cls) if cls in types[:13] else 'DC', fault or '-', outcome.split(':')[0]))
         if violations:
             break
     # ---- reversibility: unregister everything, state must equal the pristine one
